@@ -102,9 +102,27 @@ def run(ctx):
 
     # -- R4.1 --------------------------------------------------------------------------------------------
     ctx.rule("R4.1", "run level: escape class = C0 minus {TAB, LF}; replacement _xHHHH_; no splitting")
-    esc = run_c.methods.get("_escape_ctrl_chars")
+    # the escaper is whatever the run's text setter applies to the assigned value (a static method of the run class, or a
+    # module-level function)
+    esc, esc_call = None, None
+    rs0 = run_c.setters.get("text")
+    if rs0 is not None:
+        for n in ast.walk(rs0.node):
+            if isinstance(n, ast.Assign) and dotted(n.targets[0]) == "self.t.text" and isinstance(n.value, ast.Call) and len(n.value.args) == 1:
+                fd = dotted(n.value.func) or ""
+                g = None
+                if fd.startswith(("self.", "cls.")) and fd.count(".") == 1:
+                    g = prog.lookup(run_c, fd.split(".")[1])
+                elif fd.split(".")[0] == run_c.name and fd.count(".") == 1:
+                    g = prog.lookup(run_c, fd.split(".")[1])
+                elif fd:
+                    g = prog.resolve(run_c.module, fd)
+                if hasattr(g, "node"):
+                    esc, esc_call = g, n.value
     if esc is None:
-        raise AnalysisError("anchor vanished: _escape_ctrl_chars")
+        esc = run_c.methods.get("_escape_ctrl_chars")
+    if esc is None:
+        raise AnalysisError("anchor vanished: the escaper applied by CT_RegularTextRun.text's setter")
     # re.sub(P, repl, s)  or  <compiled pattern>.sub(repl, s): normalised to (pattern text, replacement, subject)
     sub = []
     for n in ast.walk(esc.node):
@@ -238,7 +256,8 @@ def run(ctx):
         body = [s for s in rs.node.body if not (isinstance(s, ast.Expr) and isinstance(s.value, ast.Constant))]
         if len(body) == 1 and isinstance(body[0], ast.Assign) and dotted(body[0].targets[0]) == "self.t.text":
             v = body[0].value
-            good = isinstance(v, ast.Call) and dotted(v.func) == "self._escape_ctrl_chars" and dotted(v.args[0]) == rs.node.args.args[1].arg
+            good = isinstance(v, ast.Call) and (dotted(v.func) == "self._escape_ctrl_chars" or v is esc_call) and len(v.args) == 1 \
+                and dotted(v.args[0]) == rs.node.args.args[1].arg
     if good:
         ctx.ok("R4.1", "CT_RegularTextRun.text.setter", sample={"stores": "a:t text = escape(value), nothing else"})
     else:
